@@ -436,6 +436,8 @@ fn raptor_reconstruct(rq: bool, b: u64, l: u64, e: u64, o: &mut Oracle) -> Strin
             }
             format!("ok {} {}", b2, z)
         }
+        // the sender refuses the object (more source blocks than the Z field can carry, block above K_max, ...)
+        Ok(Err(e)) if e.contains("source blocks") || e.contains("incompatible") => "ERR".to_string(),
         Ok(Err(e)) => format!("ERR {}", e.chars().take(200).collect::<String>().replace(' ', "_")),
         Err(_) => "SKIP".to_string(), // codec-library panic on this shape: not C07's concern (C08/C04 own it)
     }
@@ -668,6 +670,23 @@ pub fn run(ctx: &mut Ctx, eng: &mut dyn Engine) {
         ctx.count(&format!("receiver-blocks scheme={} {}", scheme, if inband { "inband-fti" } else { "fdt-oti" }));
         if i < 2 {
             ctx.sample(format!("part rcv {} {} {} {} {} -> {}", scheme, inband as u8, b, l, e, obs));
+        }
+    }
+    // number of source blocks at the boundary of the Z field (RaptorQ: 8 bits; Raptor: 16 bits): N = 254..258 must be
+    // announced exactly or the object refused - never a wrapped Z
+    for rq in [true, false] {
+        let lim: u64 = if rq { 255 } else { 65535 };
+        for n in [lim - 1, lim, lim + 1, lim + 2] {
+            for (b, e) in [(4u64, 4u64), (5, 4)] {
+                if !rq && n > 300 && b != 4 {
+                    continue;
+                }
+                let l = n * b * e;
+                let obs = ctx.step(eng, &format!("part {} {} {} {}", if rq { "rq" } else { "rp" }, b, l, e));
+                ctx.evaluations += 1;
+                ctx.nontrivial(&format!("zfield {} {} {} {}", rq, b, l, e));
+                ctx.count(if obs.starts_with("ok") { "z-field-boundary-ok" } else { "z-field-boundary-refused" });
+            }
         }
     }
     for i in 0..ns {
